@@ -36,6 +36,8 @@ CFGS = {
                PullRetry=0, PullAuto=-1, PullEnabled=True, Hook=True),
     "P2": dict(RtmpPubs=["p1"], RtspPubs=[], CustPubs=[], PsPubs=[], RtmpSubs=[], FlvSubs=["f1"],
                PullRetry=-1, PullAuto=-1, PullEnabled=True),
+    "P6": dict(RtmpPubs=[], RtspPubs=[], CustPubs=[], PsPubs=[], RtmpSubs=["s1"], FlvSubs=[],
+               PullRetry=-1, PullAuto=1, PullEnabled=True, Hook=False),
     "P3": dict(RtmpPubs=["p1", "p2"], RtspPubs=[], CustPubs=[], PsPubs=[], RtmpSubs=["s1"], FlvSubs=[],
                PullRetry=0, PullAuto=0, PullEnabled=True, Hook=False),
     # C16: every output enabled (HLS, HTTP-TS, FLV + TS recording, hook), inputs of every kind, shutdown
@@ -66,7 +68,7 @@ CFGS = {
 }
 # relay pull from an RTSP origin (rtsp.PullSession over TCP instead of rtmp.PullSession): the model's pull machine is
 # protocol-agnostic, so every pull configuration has a twin whose driver uses an rtsp:// URL and the RTSP origin stub
-for _cid, _rid in (("P0", "R0"), ("P1", "R1"), ("P2", "R2"), ("P3", "R3"), ("P4", "R4"), ("P5", "R5"), ("F2", "F3")):
+for _cid, _rid in (("P0", "R0"), ("P1", "R1"), ("P2", "R2"), ("P3", "R3"), ("P4", "R4"), ("P5", "R5"), ("P6", "R6"), ("F2", "F3")):
     CFGS[_rid] = dict(CFGS[_cid], PullRtsp=True)
 # which description the stream hands to an RTSP player (C03): a player that stays (asks, is answered at once or parked until an
 # input with a description is accepted) next to a relay pull from an RTSP origin, an RTSP publisher and a customize / RTMP publisher
@@ -98,6 +100,17 @@ DIRECTED = [
     ("D1", [_a("PlayerAsk", "v1", 0, 1), _a("StartPull", attempts=1), _a("NewPub", "q1", 1, 1), _a("PullOk", attempts=1, notif=1),
             _a("PlayerBye", "v1", 1, 1)]),
 ]
+# auto-stop window (C17): the window elapses without a consumer and without a tick; a subscriber comes (a new attempt at once) and
+# goes between two ticks; the attempt fails; at the next tick a consumer has been present within the window: retry
+DIRECTED_PULL = [
+    (cid, [_a("StartPull", attempts=1), _a("PullFail", attempts=1, notif=1), _a("Advance", attempts=1), _a("NewSub", "s1", 2, 1),
+           _a("DelSub", "s1", 2, 1), _a("PullFail", attempts=2, notif=1), _a("Tick", attempts=3)])
+    for cid in ("P6", "R6")] + [
+    # ... and the same with an attempt that succeeds: the accepted pull is not stopped before the window has elapsed again
+    (cid, [_a("StartPull", attempts=1), _a("PullFail", attempts=1, notif=1), _a("Advance", attempts=1), _a("NewSub", "s1", 2, 1),
+           _a("PullOk", attempts=2, notif=1), _a("DelSub", "s1", 2, 1), _a("Tick", attempts=2),
+           _a("Advance", attempts=2), _a("Tick", attempts=2, notif=1)])
+    for cid in ("P6", "R6")]
 HLS_SETS = {("h1",): "Hls1", ("h1", "h2"): "Hls2"}      # defined in spec/Lifecycle.tla
 
 
